@@ -2,6 +2,7 @@ package main
 
 import (
 	"fmt"
+	"strings"
 	"log"
 	"math/rand"
 	"os"
@@ -115,6 +116,10 @@ func runConc(args []string) {
 	if err != nil {
 		fmt.Println("ERR", err)
 		os.Exit(2)
+	}
+	if mix == 3 {
+		runTwoCollections(path, seed, threads, nops, quant, timeout)
+		return
 	}
 	nids := uint64(6)
 	if mix == 2 {
@@ -308,4 +313,110 @@ func runConc(args []string) {
 	fmt.Printf("index %s\n", idx)
 	c.Close()
 	os.Remove(path)
+}
+
+// mix 3: two collections of one process, each written by its own goroutines (collections share nothing a caller can see).
+// Every goroutine writes ids of its own, so the final contents are known; both files are checked open and after a reopen.
+func runTwoCollections(path string, seed int64, threads, nops, quant, timeout int) {
+	paths := []string{path, path + ".b"}
+	var cols []*syz.Collection
+	for _, p := range paths {
+		os.Remove(p)
+		c, err := syz.NewCollection(syz.CollectionOptions{Name: p, DistanceMethod: 0, DimensionCount: 3, Quantization: quant, FileMode: syz.CreateAndOverwrite})
+		if err != nil {
+			fmt.Println("ERR", err)
+			os.Exit(2)
+		}
+		cols = append(cols, c)
+	}
+	if threads < 2 {
+		threads = 2
+	}
+	metaOf := func(t, i, round int) []byte {
+		return []byte(fmt.Sprintf("{\"t\":%d,\"i\":%d,\"r\":%d,\"pad\":\"%s\"}", t, i, round, strings.Repeat("x", (t*31+i*7+round)%90)))
+	}
+	var wg sync.WaitGroup
+	var calls int64
+	done := make(chan struct{})
+	for t := 0; t < threads; t++ {
+		wg.Add(1)
+		go func(t int) {
+			defer wg.Done()
+			c := cols[t%2]
+			for i := 0; i < nops; i++ {
+				id := uint64(t*100000 + i%40 + 1)
+				atomic.AddInt64(&calls, 1)
+				if i < 40 {
+					c.AddDocument(id, []float64{float64(t), float64(i), 0.5}, metaOf(t, i%40, i/40))
+				} else {
+					c.UpdateDocument(id, metaOf(t, i%40, i/40))
+				}
+			}
+		}(t)
+	}
+	go func() { wg.Wait(); close(done) }()
+	select {
+	case <-done:
+	case <-time.After(time.Duration(timeout) * time.Second):
+		fmt.Printf("HANG after %ds: %d calls started, goroutines still blocked\n", timeout, atomic.LoadInt64(&calls))
+		out.Flush()
+		os.Exit(3)
+	}
+	fmt.Printf("done %d\n", atomic.LoadInt64(&calls))
+	fmt.Println("lin Ok 0")
+	why := ""
+	verify := func(stage string) {
+		for k, c := range cols {
+			want := 0
+			for t := k; t < threads; t += 2 {
+				for j := 0; j < 40 && j < nops; j++ {
+					want++
+					last := j + ((nops-1-j)/40)*40
+					d, err := c.GetDocument(uint64(t*100000 + j + 1))
+					if err != nil {
+						why = fmt.Sprintf("%s: collection %d: document of goroutine %d (slot %d) cannot be read: %v", stage, k, t, j, err)
+						return
+					}
+					if string(d.Metadata) != string(metaOf(t, j, last/40)) {
+						why = fmt.Sprintf("%s: collection %d: document of goroutine %d (slot %d) holds %.60q, the last write was %.60q", stage, k, t, j, d.Metadata, metaOf(t, j, last/40))
+						return
+					}
+				}
+			}
+			if got := c.GetDocumentCount(); got != want {
+				why = fmt.Sprintf("%s: collection %d holds %d documents, %d were written", stage, k, got, want)
+				return
+			}
+		}
+	}
+	func() {
+		defer func() {
+			if e := recover(); e != nil {
+				why = fmt.Sprintf("verification panicked: %v", e)
+			}
+		}()
+		verify("open")
+		if why == "" {
+			for k := range cols {
+				cols[k].Close()
+				c, err := syz.NewCollection(syz.CollectionOptions{Name: paths[k], FileMode: syz.ReadWrite})
+				if err != nil {
+					why = fmt.Sprintf("collection %d cannot be opened again: %v", k, err)
+					return
+				}
+				cols[k] = c
+			}
+			verify("after reopen")
+		}
+	}()
+	if why != "" {
+		fmt.Printf("sanity %s\n", why)
+	} else {
+		fmt.Println("sanity ok")
+	}
+	fmt.Println("index ok")
+	for k := range cols {
+		cols[k].Close()
+		os.Remove(paths[k])
+	}
 }
